@@ -19,6 +19,7 @@ struct Zp
 	Zp() : v(0) {}
 	Zp(int x) : v(norm(x)) {}
 	Zp(long long x) : v((int)(((x % P) + P) % P)) {}
+	Zp(double x) : v(norm((int)x)) {}   // integral literals only (Complex::operator/ writes 1./x)
 	static int norm(int x) { int r = x % P; return r < 0 ? r + P : r; }
 	static Zp raw(int x) { Zp z; z.v = x; return z; }
 	static int inv(int a)
